@@ -9,7 +9,7 @@
 (*          isn  = IsNeighborInEpoch(a,b) for b in -1..V                              *)
 (*          idx  = NeighborIndicesInEpoch(a)                                          *)
 (*          all  = ids of AllNeighborValidators(a); getnb = ValidatorManager.GetNeighbors *)
-(*          key  = ValidatorManager{SelfIndex a}.IsNeighbor(key id) for id in 0..u-1  *)
+(*          key  = ValidatorManager{SelfIndex a}.IsNeighbor(key id) for id in kq      *)
 (*          (all/getnb/key only when 0 <= a < V: hasx = 1)                            *)
 (* Every line is judged on its own against the last Set line; `bad` collects the      *)
 (* rejected lines with a reason.  Lists are compared as sets; queries about the       *)
@@ -54,8 +54,8 @@ JudgeProbe(e) ==
                       nk == NbrKeys(cfg.cur, cfg.prev, cfg.next, a) \ {self}
                   IN Why(ToSet(e.all) \ {self} # nk, "AllNeighborValidators_wrong")
                      \cup Why(ToSet(e.getnb) \ {self} # nk, "GetNeighbors_wrong")
-                     \cup Why(Len(e.key) # cfg.u, "key_shape")
-                     \cup Why(\E id \in 0..(Len(e.key) - 1) : id # self /\ (e.key[id + 1] = 1) # (id \in nk), "IsNeighbor_wrong")
+                     \cup Why(Len(e.key) # Len(e.kq), "key_shape")
+                     \cup Why(\E i \in 1..Min2(Len(e.key), Len(e.kq)) : e.kq[i] # self /\ (e.key[i] = 1) # (e.kq[i] \in nk), "IsNeighbor_wrong")
                 ELSE {})
 
 Judge(e) == CASE e.ev = "width"  -> JudgeWidth(e)
